@@ -67,7 +67,7 @@ pub fn c13_case() -> impl Strategy<Value = Case> {
             Case {
                 opts: [o0, o1],
                 cap: [c0, c1],
-                streams: vec![StreamSpec { side, port: 22, pad: vec![], delay: 0, park: None, ends }],
+                streams: vec![StreamSpec { side, port: 22, pad: vec![], delay: 0, park: None, cancel: None, ends }],
                 bridges: vec![BridgeSpec { stream: 0, end: bend, read, write, flush_err_at, shutdown, plain, flush_pending }],
                 events,
                 schedule,
@@ -236,7 +236,7 @@ pub fn burst_case(i: u64) -> Case {
     ends[1] = EndScript { w: if quiet_peer { vec![] } else { vec![WOp::Write(5), WOp::Shutdown] }, r: vec![ROp::ToEof(1 << 20)] };
     Case {
         opts: [OptsSpec { rwnd: 8, thr: 4, ..OptsSpec::default() }, OptsSpec { rwnd: 8, thr: 2, ..OptsSpec::default() }],
-        streams: vec![StreamSpec { side: 0, port: 22, pad: vec![], delay: 0, park: None, ends }],
+        streams: vec![StreamSpec { side: 0, port: 22, pad: vec![], delay: 0, park: None, cancel: None, ends }],
         bridges: vec![BridgeSpec { stream: 0, end: 0, read, write: vec![], flush_err_at: None, shutdown: LS::Ok, plain, flush_pending: None }],
         events: (1u8..=3).map(|n| RawEvent { when: Trigger::Quiescent, what: What::Wake(n) }).collect(),
         step_bound: 2_000_000,
